@@ -429,6 +429,31 @@ func c01Run(c *Ctx) {
 		}
 		c01Judge(c, cs)
 	}
+	// 10. the same for whole programs: the hand-written scoping / call programs and generated programs,
+	// each against the text with every composite sub-expression parenthesised as the ladder groups it,
+	// and with every atom parenthesised as well (callee, operand, index, condition positions)
+	r = c.Rand("progeq")
+	progs := append(c03Handwritten(), c04Handwritten()...)
+	for k := 0; k < c.N(400, 30000); k++ {
+		g := NewPG(r, 8+r.Intn(25))
+		g.Faults = r.Intn(4) == 0
+		progs = append(progs, g.Program(3))
+	}
+	for k, src := range progs {
+		if !c.Mine() {
+			continue
+		}
+		tp, _, prog, ok := tokenise(src)
+		if !ok {
+			continue
+		}
+		cs := &Case{Gen: "paren-program-equivalence", Src: tp.canonical(), Alt: []string{ref.PrintOpts{Full: true}.Program(prog), ref.PrintOpts{Full: true, Atoms: true}.Program(prog)},
+			X: map[string]string{"t0": "parentheses-full", "t1": "parentheses-full-atoms"}}
+		if k%10 == 0 {
+			cs.Mode = "cli"
+		}
+		c01Judge(c, cs)
+	}
 }
 
 func sameObs(a, b *Obs) bool {
@@ -450,6 +475,10 @@ func c01Judge(c *Ctx, cs *Case) {
 			T[i] = ref.StripGroups(p)
 		}
 		roundTripJudge(c, cs, T)
+		return
+	}
+	if cs.Gen == "paren-program-equivalence" {
+		c18Judge(c, cs)
 		return
 	}
 	c.Begin(cs)
@@ -491,7 +520,7 @@ func c01Judge(c *Ctx, cs *Case) {
 func init() {
 	register(&CheckDef{
 		ID:   "C01",
-		Rule: "texts: `a o1 b o2 c [o3 d];` for every ordered pair and triple of the 22 binary/logical/assignment operator spellings; every prefix operator against every binary operator on either side, prefix stacks against **; suffix chains of length <=3 over {(),(x),(x,y),[x],.k} on every primary form; assignment chains over all target forms with every operator on the right; every expression form in every expression slot of every statement form; if/else/while nests to depth 4 with and without else at every level; every token sequence of length <=3/<=4 over the 40-token alphabet and <=5/<=6 over the core alphabet; each accepted text's tree (walked through exported fields) compared with the reference precedence-table parser's tree. Plus seeded random statement trees printed with minimal and with full parentheses and with word-spelled logical operators, parsed by the real parser and compared with the original tree modulo Grouping; plus random literal expressions whose minimal- and fully-parenthesised forms must print the same (in-process and through the binary). Non-trivial = distinct decided text.",
+		Rule: "texts: `a o1 b o2 c [o3 d];` for every ordered pair and triple of the 22 binary/logical/assignment operator spellings; every prefix operator against every binary operator on either side, prefix stacks against **; suffix chains of length <=3 over {(),(x),(x,y),[x],.k} on every primary form; assignment chains over all target forms with every operator on the right; every expression form in every expression slot of every statement form; if/else/while nests to depth 4 with and without else at every level; every token sequence of length <=3/<=4 over the 40-token alphabet and <=5/<=6 over the core alphabet; each accepted text's tree (walked through exported fields) compared with the reference precedence-table parser's tree. Plus seeded random statement trees printed with minimal and with full parentheses and with word-spelled logical operators, parsed by the real parser and compared with the original tree modulo Grouping; plus random literal expressions whose minimal- and fully-parenthesised forms must print the same (in-process and through the binary); plus the hand-written scoping / call programs and generated programs against their fully parenthesised forms (atoms included), compared on stdout, status and first diagnostic. Non-trivial = distinct decided text.",
 		Assumptions: []string{"the 13-row precedence table in harness/ref/parser.go transcribes the documented ladder (it is cross-checked against the Earley grammar on every accepted text)"},
 		Run:         c01Run,
 		Judge:       c01Judge,
